@@ -66,7 +66,7 @@ Record cfg := {
   poll : Z;                            (* caps.wait_poll_ms *)
   pcap : Z;                            (* OS pipe capacity *)
   out1 : bytes; out2 : bytes;          (* what the child writes to stdout / stderr *)
-  ecode : Z                            (* the child's exit code *)
+  ecode : option Z                     (* the child's exit code; None = it ends by a signal of its own *)
 }.
 
 Definition pol (c : cfg) (s : stream) : policy := match s with S1 => pol1 c | S2 => pol2 c end.
@@ -225,7 +225,7 @@ Definition reader_step (c : cfg) (st : state) (s : stream) (k : nat) : option st
 
 (* ------------------------------------------------------------------ waiter *)
 Definition status_code (c : cfg) (x : cstat) : option Z :=
-  match x with CExited => Some (ecode c) | _ => None end.   (* ExitStatus::code(): None if signalled *)
+  match x with CExited => ecode c | _ => None end.   (* ExitStatus::code(): None if signalled *)
 
 Definition deadline_passed (c : cfg) (st : state) : bool :=
   if deadline_ge then timeout c <=? clock st else timeout c <? clock st.
@@ -245,16 +245,26 @@ Definition set_reaped (st : state) (x : wpc) : state :=
 
 (* join_capture on the success path: Some r = finished with r, None = value for the next join *)
 Inductive joinres := JBlocked | JNone | JSome (b : bytes) | JErr (e : perr).
-Definition join_ok (st : state) (s : stream) : joinres :=
+Definition recheck (m : recheck_mode) (st : state) (s : stream) : option perr :=
+  match m with
+  | RecheckNone => None
+  | RecheckOwn => if flag st =? join_code s then Some (EOLE s) else None
+  | RecheckAny => if flag st =? 0 then None else Some (EOLE (from_code (flag st)))
+  end.
+Definition join_ok_m (m : recheck_mode) (st : state) (s : stream) : joinres :=
   let x := sget st s in
   match r_pc x with
   | RNone => JNone
   | RDone =>
-      if join_recheck && (flag st =? join_code s) then JErr (EOLE s)
-      else if negb utf8_checked || utf8_valid (rbuf x) then JSome (rbuf x)
-      else JErr (EUtf8 s)
+      match recheck m st s with
+      | Some e => JErr e
+      | None =>
+          if negb utf8_checked || utf8_valid (rbuf x) then JSome (rbuf x)
+          else JErr (EUtf8 s)
+      end
   | _ => JBlocked
   end.
+Definition join_ok : state -> stream -> joinres := join_ok_m join_recheck_mode.
 Definition joined (st : state) (s : stream) : bool :=
   match r_pc (sget st s) with RNone | RDone => true | _ => false end.
 
@@ -332,13 +342,22 @@ Definition ok_stream (c : cfg) (s : stream) (o : option bytes) : Prop :=
 
 Definition result_spec (c : cfg) (r : result) : Prop :=
   match r with
-  | ROk o1 o2 code => code = Some (ecode c) /\ ok_stream c S1 o1 /\ ok_stream c S2 o2
+  | ROk o1 o2 code => code = ecode c /\ ok_stream c S1 o1 /\ ok_stream c S2 o2
   | RErr (EOLE s) => captured c s = true /\ cap c < len (out c s)
   | RErr (EUtf8 s) =>
       captured c s = true /\
       (utf8_valid (out c s) = false \/
        (captured c (other s) = true /\ cap c < len (out c (other s))))
   | RErr ETimeout => True
+  end.
+
+(* The exact version of the InvalidUtf8 clause.  It holds when join_capture fails on ANY recorded
+   overflow (join_recheck_mode = RecheckAny); with the own-code-only re-check it is refuted
+   (CaptureProofs.misattributed_utf8_reachable). *)
+Definition strict_spec (c : cfg) (r : result) : Prop :=
+  match r with
+  | RErr (EUtf8 s) => utf8_valid (out c s) = false
+  | _ => True
   end.
 
 (* executable version, used by the model executable to judge an observed outcome *)
@@ -352,17 +371,22 @@ Definition ok_stream_b (c : cfg) (s : stream) (o : option bytes) : bool :=
   if captured c s
   then opt_eqb o (Some (out c s)) && (len (out c s) <=? cap c) && utf8_valid (out c s)
   else opt_eqb o None.
-Definition outcome_ok (c : cfg) (r : result) : bool :=
+Definition outcome_ok_m (m : recheck_mode) (c : cfg) (r : result) : bool :=
   match r with
   | ROk o1 o2 code =>
-      match code with Some z => z =? ecode c | None => false end
+      match code, ecode c with Some z, Some z' => z =? z' | None, None => true | _, _ => false end
       && ok_stream_b c S1 o1 && ok_stream_b c S2 o2
   | RErr (EOLE s) => captured c s && (cap c <? len (out c s))
   | RErr (EUtf8 s) =>
       captured c s &&
-      (negb (utf8_valid (out c s)) || (captured c (other s) && (cap c <? len (out c (other s)))))
+      (negb (utf8_valid (out c s)) ||
+       match m with
+       | RecheckAny => false
+       | _ => captured c (other s) && (cap c <? len (out c (other s)))
+       end)
   | RErr ETimeout => true
   end.
+Definition outcome_ok : cfg -> result -> bool := outcome_ok_m join_recheck_mode.
 
 (* Every terminal state: the child is gone and its status collected; it was killed first on the
    error exits of the wait loop; a success means it exited by itself and was never killed; a
